@@ -868,6 +868,23 @@ impl<'de> serde::Deserialize<'de> for Ignored {
     }
 }
 
+/// Error class from the Debug rendering `.. err: <Variant>..` of a wrapped decode::Error; 100 if it cannot be read.
+fn class_from_debug(d: &str) -> u8 {
+    let Some(i) = d.find("err: ") else { return 100 };
+    let name: String = d[i + 5..].chars().take_while(|c| c.is_ascii_alphanumeric()).collect();
+    match name.as_str() {
+        "EndOfInput" => 1,
+        "TypeMismatch" => 2,
+        "TagMismatch" => 3,
+        "Message" => 4,
+        "Custom" => 5,
+        "UnknownVariant" => 6,
+        "MissingValue" => 7,
+        "InvalidChar" | "Utf8" | "Overflow" => 8,
+        _ => 100,
+    }
+}
+
 fn serde_rec<'a, T: serde::Deserialize<'a> + Dig>(b: &'a [u8]) -> Rec {
     let mut de = minicbor_serde::Deserializer::new(b);
     let r = T::deserialize(&mut de);
@@ -878,8 +895,9 @@ fn serde_rec<'a, T: serde::Deserialize<'a> + Dig>(b: &'a [u8]) -> Rec {
             v.dig(&mut h);
             Rec { class: 0, pos, digest: h.0 }
         }
-        // the bridge's error type does not expose a class: only Ok / Err is compared
-        Err(_) => Rec { class: 100, pos, digest: 0 },
+        // the bridge's error type wraps minicbor's decode::Error without exposing its class predicates;
+        // the class is observable through Debug (the wrapped error's variant name)
+        Err(e) => Rec { class: class_from_debug(&format!("{:?}", e)), pos, digest: 0 },
     }
 }
 
